@@ -4,7 +4,7 @@ from pyvc.contracts import cls, fn
 cls(
     "hypercorn.protocol.h2:StreamBuffer",
     fields={"buffer": "bytes", "_complete": "bool", "_is_empty": "Event", "_paused": "Event"},
-    inv=[],
+    inv=[("StreamBuffer.inv.events-clearable", "not self._is_empty.g_sticky and not self._paused.g_sticky", "C08")],
     rely=[("StreamBuffer.rely.complete-monotone", "implies(old(self._complete), self._complete)")],
 )
 
